@@ -55,7 +55,60 @@ def run(ctx):
     rule_overflow(ctx, f)
     rule_stream(ctx, f)
     rule_pair(ctx, f)
+    rule_noshrink(ctx, f)
     L.check_stream_pairing(ctx, f)
+
+
+def rule_noshrink(ctx, f):
+    """F-NOSHRINK (added after seeded change C20): streams with equal rules share one broadcast queue, and shrinking an
+    async_broadcast queue discards its oldest entries. Every `set_capacity` on a message channel must therefore sit on
+    the edge where the requested size is greater than the current `capacity()` of that same channel."""
+    n = 0
+    for b in f.all_bodies("zbus"):
+        for c in mir.calls(b):
+            if not (c.is_("set_capacity") and "async_broadcast" in c.callee):
+                continue
+            n += 1
+            recv = mir.origin(b, c.args[0])
+            rl = recv[1][0] if recv[0] in ("place", "ref") else mir.root_local(b, c.args[0])
+            newv = mir.root_local(b, c.args[1]) if len(c.args) > 1 else None
+            ok = False
+            for sb, op, l, r, tt, ft, ln in mir.cmp_switches(b):
+                def is_cap(x):
+                    o = mir.origin(b, x)
+                    wrapper = False
+                    if o[0] == "call" and o[1].callee in f.bodies:
+                        wb = f.bodies[o[1].callee]
+                        wrapper = any(y.is_("capacity") and "async_broadcast" in y.callee for y in mir.calls(wb)) and len(mir.calls(wb)) <= 3
+                    if o[0] == "call" and (o[1].is_("capacity") or wrapper) and o[1].args:
+                        ro = mir.origin(b, o[1].args[0])
+                        return (ro[1][0] if ro[0] in ("place", "ref") else mir.root_local(b, o[1].args[0])) == rl
+                    return False
+                edge = None
+                if mir.root_local(b, l) == newv and is_cap(r):
+                    edge = {"Gt": tt, "Le": ft}.get(op)
+                elif mir.root_local(b, r) == newv and is_cap(l):
+                    edge = {"Lt": tt, "Ge": ft}.get(op)
+                if edge is not None and mir.block_dominates(b, edge, c.b):
+                    ok = True
+            # a freshly created channel (receiver produced by `broadcast(..)` in this body) may be sized freely
+            fresh = False
+            if recv[0] in ("place", "ref"):
+                d = mir.defs_of(b, rl)
+                for x in d:
+                    if x[0] == "call" and x[1].is_("broadcast"):
+                        fresh = True
+            explicit = {"zbus::connection::Connection::set_max_queued":
+                        "explicit user request on the connection's own unfiltered queue (`&mut self`, documented as setting the capacity)"}
+            if b.root in explicit and not ok:
+                ok = True
+                ctx.note("F-NOSHRINK: %s exempt: %s" % (b.root, explicit[b.root]))
+            ctx.ob("F-NOSHRINK", "%s:set_capacity-only-grows" % b.root, ok or fresh,
+                   "set_capacity is reached only when the new size exceeds capacity() of the same channel" if ok else
+                   ("channel created in this function" if fresh else
+                    "set_capacity can shrink a queue that other streams of the same rule are reading: their oldest unread messages are discarded"),
+                   c.where)
+    ctx.extra["set_capacity_sites"] = n
 
 
 # ------------------------------------------------------------------------------------------ single reader
